@@ -14,7 +14,7 @@ HIGHLIGHTS = {
     'C01': "`dictNdl_eq_spec` (any initial dict, late names, outcome-less events), `policy_error/keep`, `dedup_perm_invariant`, kernels under every valid schedule, **`ndl_eq_spec` / `ndl_call_eq_spec`** (the whole `ndl.ndl` model — counting, id maps, policy, chunk files, kernels, labels — equals `rwLearn` at every pair of names, under `CfgOK`, `Fits32`, ≥ 1 event), `ndl_call_labels` (labels are exactly the names that occur), `ndl_label_order_irrelevant`, and the error directions `ndl_dup_raises`, `ndl_chunk_args_raise`, `ndl_call_empty_openmp`.",
     'C02': "partitions (`sliceList_partition`, `ompParts_partition`, 32-bit bounds `ompParts_no_wrap`), `footprint_disjoint` / `micro_steps_commute`, `schedule_independent_threading/_openmp` for every valid schedule, `every_interleaving_is_valid` and its converse, the work-queue protocol (`queue_exactly_once`, bounded, progress, failing calls) and **`protocol_run_interleaves` / `threading_protocol_schedule_independent`**: every complete non-failing run of the refined protocol IS an interleaving of the part programs, each exactly once, hence yields the specification.",
     'C03': "`learn_append`, `chain_eq_single`, `dict_continue`, **`ndl_continue` / `ndl_call_continue`**, `ndl_chain_two` (restated: the earlier version was vacuous), hand-over lemmas, and for chains of ANY length with a different learner per part **`chain_any_length`**, `chain_any_length_from`, **`chain_eq_single_call`**, `chain_split_irrelevant` (model `chainRun` over `ndlCall`; every ndl part non-empty, `chain_empty_ndl_part_raises` otherwise). Widrow–Hoff chains: C08.",
-    'C04': "`chunks_concat`, `writeEvents_window` (all policies), `conversion_files` (= `makeChunks_ok`), `name_key_roundtrip`, `sort_is_numeric`, `count_any_order`, **`submit_loop_terminates`** (every delay oracle, exact multiples), **`submit_loop_step_semantics`** (the pass-by-pass step semantics `runLoop` of the `while True` loop ends within `tDone(n/per)+2` passes in exactly the closed form's state, every oracle; the driver evaluates both on every case), `submit_loop_break_iff`, `submit_loop_old_rule_never_breaks`, `submit_loop_diverges_on_multiple_old_rule` (F1), `chunk_size_overflow`, `learn_chunk_independent`.",
+    'C04': "`chunks_concat`, `writeEvents_window` (all policies), `conversion_files` (= `makeChunks_ok`), `name_key_roundtrip`, `sort_is_numeric`, `count_any_order`, **`submit_loop_terminates`** (every delay oracle, exact multiples), **`submit_loop_step_semantics`** (the pass-by-pass step semantics `runLoop` of the `while True` loop ends within `tDone(n/per)+2` passes in exactly the closed form's state, every oracle; the driver evaluates both on every case), `submit_loop_break_iff`, `submit_loop_fuel_irrelevant` (fuel only bounds the passes looked at; a final state has the pool closed), `submit_loop_old_rule_never_breaks`, `submit_loop_diverges_on_multiple_old_rule` (F1), `chunk_size_overflow`, `learn_chunk_independent`.",
     'C05': "`conversion_fault_raises` (every completion order), `worker_fault_raises`, `dict_fault_raises`, and at learner level `ndl_dup_raises`, `ndl_overflow_raises`, `ndl_empty_raises`, `wh_dup_raises_*`, `wh_missing_vector_raises_*`, with the failing-job oracle instantiated from the file (`failing_job_iff`, `job_result_is_write_events`, `conversion_dup_raises`).",
     'C06': "`magic_agree` / `version_agree` on regenerated constants, `decode_encode`, `kernel_reads_what_py_reads` / `kernel_rejects_what_py_rejects` (restated: truncation is outside), `written_chunks_are_complete`, `write_read_window` / `write_window_overflow`, `kernel_buffer_never_overrun`, `flatIndex_exact`, `bad_header_rejected(_b2b)`, `good_chunks_consumed`, `empty_file_list_raises`.",
     'C07': "`splitOn_joinWith`, `parse_render(_slice_with)` (for every integer-literal parser, `1 ≤ step`; `step_zero_raises`), `freq_expand_with` / `freq_error_with`, `renderFileWith_*` (columns=, delimiter=, legacy header), `forms_agree`, `literals_match_source`.",
